@@ -172,4 +172,11 @@ def softMembership (sqrt : α → α) (tiny huge : α) (nIn nC : Nat) (cen : Nat
 def hardMembership (sqrt : α → α) (tiny huge : α) (nIn nC : Nat) (cen : Nat → Nat → α) (x : Nat → α) : Nat :=
   argmax nC (softMembership sqrt tiny huge nIn nC cen x)
 
+/-! ### `DropoutLayer`, given the mask it drew -/
+/-- `DropoutLayer` for a given mask (the 0/1 matrix drawn by `eval` and kept in the `State`): `inputs * mask` -/
+def dropoutEval {α : Type} [Scalar α] (mask X : ℕ → ℕ → α) (i k : ℕ) : α := X i k * mask i k
+/-- `weightedInputDerivative`: `coefficients * mask` -/
+def dropoutGradX {α : Type} [Scalar α] (mask coeff : ℕ → ℕ → α) (i k : ℕ) : α := coeff i k * mask i k
+
+
 end SharkVerif.Models
